@@ -47,8 +47,8 @@ def entries(facts):
                 raise BrokenCheck("function table: entry %s has no function item" % name)
             out.append({"name": name, "ns_none": ns_none, "min": lo, "max": hi, "fid": fid,
                         "fn": facts.name_of(fid), "line": n.get("ln")})
-    if len(out) < 20:
-        raise BrokenCheck("function table: only %d entries recognised (floor 20)" % len(out))
+    if len(out) < 12:
+        raise BrokenCheck("function table: only %d entries recognised (floor 12)" % len(out))
     return out
 
 
